@@ -25,6 +25,7 @@ type scLife struct {
 	groups        []string // C14: one group name per member
 	endsInClose   int
 	transientEnds int
+	errsSeen      int
 }
 
 func init() {
@@ -105,6 +106,11 @@ func (s *scLife) Configure(w *World) {
 		if c.Faults {
 			c.W.ReplyErr, c.W.Stall = 1, 1
 			c.DelayFaults = true
+			if t.Draw(3, nil) == 0 {
+				// only failing saves, and Close() soon after one of them has failed
+				c.W.ReplyErr, c.W.Stall, c.DelayFaults = 3, 0, false
+				c.Extra["failsave"] = "1"
+			}
 		}
 		s.maxRest = 0
 		c.QuiesceBudget = 200 * time.Second
@@ -262,6 +268,11 @@ func (s *scLife) closeWeight(w *World, m *Member) int {
 	}
 	if w.cl.mgmtMode != "ok" && w.cfg.HealthCheck {
 		wt = 25
+	}
+	if w.cfg.Extra["failsave"] == "1" && wt != 25 {
+		if n := w.faultsFired["err:access"] + w.faultsFired["err:internal"]; n > s.errsSeen {
+			wt = 40 // a save has just failed and nothing is in flight
+		}
 	}
 	return wt
 }
